@@ -54,6 +54,19 @@ contract(F, 'div', props=('C15',),
          inline=INL)
 
 
+from vf.pyvc.spec import REGISTRY
+_div = REGISTRY.pop('%s::div' % F)
+contract(F, 'div', props=('C15',),
+         params={'a': 'int', 'b': 'int'},
+         requires=lambda c: c.b == 0,
+         returns='int',
+         ensures=[('dividend-when-the-divisor-is-zero', lambda c: c.result == c.a)],
+         inline=INL)
+REGISTRY['%s::div#by-zero' % F] = REGISTRY.pop('%s::div' % F)
+REGISTRY['%s::div#by-zero' % F].key = '%s::div#by-zero' % F
+REGISTRY['%s::div' % F] = _div
+
+
 # ---- wrap / fold -------------------------------------------------------------
 def wrap_range(c):
     if isint(c, 'x', 'lo', 'hi'):
